@@ -117,7 +117,35 @@ func check(c Case) error {
 var hostile = []string{"\"", "'", "`", "\\", "\n", "\r", "\t", "\x00", "\x7f", "\x80", "\xff", "\xc3", "\xc3\x28", "\xed\xa0\x80", "\xef\xbf\xbd", "\u2028", "\u2029", "\ufeff", "\u00a0", "\u200b", "\U0010ffff", "\U0001f600",
 	"\"; panic(1); x := \"", "` + `", "*/", "/*", "//", "${x}", "%d", "%!", "\\n", "\\\"", "\\x", "日本語", "é", "\"\"", "``", "\r\n", " ", "a", "0"}
 
+// genLongText draws long, mostly printable multi-line text (SQL, templates, CRLF files):
+// 100..4000 bytes, lines ended by \n or \r\n.
+func genLongText(t *rapid.T) string {
+	words := []string{"SELECT", "id,", "name", "FROM", "users", "WHERE", "{{.Name}}", "x := 1", "<div>", "</div>", "#", "-- comment", "日本語", "tab\there", "a", "the quick brown fox", "'single'", "100%", "é"}
+	eol := rapid.SampledFrom([]string{"\n", "\r\n", "\n", "\r"}).Draw(t, "eol")
+	lines := rapid.IntRange(3, 60).Draw(t, "nlines")
+	sb := strings.Builder{}
+	for i := 0; i < lines; i++ {
+		for w := rapid.IntRange(0, 8).Draw(t, "nwords"); w > 0; w-- {
+			sb.WriteString(rapid.SampledFrom(words).Draw(t, "word"))
+			sb.WriteByte(' ')
+		}
+		if rapid.IntRange(0, 9).Draw(t, "mixeol") == 0 {
+			sb.WriteString(rapid.SampledFrom([]string{"\n", "\r\n", "\r", "\n\n"}).Draw(t, "eol2"))
+		} else {
+			sb.WriteString(eol)
+		}
+	}
+	s := sb.String()
+	if rapid.IntRange(0, 4).Draw(t, "special") == 0 {
+		s += rapid.SampledFrom([]string{"`", "\"", "\\", "\x00", "\xff", "\t"}).Draw(t, "tail")
+	}
+	return s
+}
+
 func genString(t *rapid.T) string {
+	if rapid.IntRange(0, 9).Draw(t, "long") == 0 {
+		return genLongText(t)
+	}
 	n := rapid.IntRange(0, 12).Draw(t, "nparts")
 	sb := strings.Builder{}
 	for i := 0; i < n; i++ {
@@ -131,8 +159,8 @@ func genString(t *rapid.T) string {
 		}
 	}
 	s := sb.String()
-	if len(s) > 200 {
-		s = s[:200]
+	if len(s) > 400 {
+		s = s[:400]
 	}
 	return s
 }
@@ -150,7 +178,7 @@ func nontrivialString(s string) bool {
 func TestC12(t *testing.T) {
 	r := hx.Start(t, "C12")
 	defer r.Finish(t)
-	r.Rule("strings: rapid byte strings of 0..200 bytes biased to quote, backquote, backslash, newline, CR, tab, NUL, 0x7f, 0x80-0xff, invalid UTF-8, surrogate halves, U+2028, BOM, code fragments, comment markers; runes: quick all code points < 0x300, all boundaries and a seed-strided 30k of the rest, thorough all 1,112,064 valid code points (sharded); bytes: all 256; Func variants included; non-trivial = string with a byte outside printable ASCII or one of \" \\ `, rune outside ASCII letters/digits; distinct by value")
+	r.Rule("strings: rapid byte strings of 0..400 bytes (one in ten: long multi-line text of 100..4000 bytes with LF / CRLF / CR line ends) biased to quote, backquote, backslash, newline, CR, tab, NUL, 0x7f, 0x80-0xff, invalid UTF-8, surrogate halves, U+2028, BOM, code fragments, comment markers; runes: quick all code points < 0x300, all boundaries and a seed-strided 30k of the rest, thorough all 1,112,064 valid code points (sharded); bytes: all 256; Func variants included; non-trivial = string with a byte outside printable ASCII or one of \" \\ `, rune outside ASCII letters/digits; distinct by value")
 	ck := hx.Check[Case]{Name: "literal", Fn: check}
 	if !hx.Replay(r, ck) {
 		if r.Shard == 0 {
@@ -209,6 +237,12 @@ func TestC12(t *testing.T) {
 		}
 		if strings.ContainsAny(s, "\"`\\") {
 			r.Class("string_with_quote_chars")
+		}
+		if len(s) >= 120 && strings.Count(s, "\n") >= 3 {
+			r.Class("string_long_multiline")
+			if strings.Contains(s, "\r") {
+				r.Class("string_long_multiline_with_CR")
+			}
 		}
 		return c
 	})
